@@ -197,22 +197,22 @@ def gauss(dim: int, order: Union[int, str]) -> tuple[np.ndarray, np.ndarray]:
                 ),
                 np.array(
                     [
-                        (18.0 - np.sqrt(30.0)) / 36.0,
-                        (18.0 + np.sqrt(30.0)) / 36.0,
-                        (18.0 + np.sqrt(30.0)) / 36.0,
-                        (18.0 - np.sqrt(30.0)) / 36.0,
-                        (18.0 - np.sqrt(30.0)) / 36.0,
-                        (18.0 + np.sqrt(30.0)) / 36.0,
-                        (18.0 + np.sqrt(30.0)) / 36.0,
-                        (18.0 - np.sqrt(30.0)) / 36.0,
-                        (18.0 - np.sqrt(30.0)) / 36.0,
-                        (18.0 + np.sqrt(30.0)) / 36.0,
-                        (18.0 + np.sqrt(30.0)) / 36.0,
-                        (18.0 - np.sqrt(30.0)) / 36.0,
-                        (18.0 - np.sqrt(30.0)) / 36.0,
-                        (18.0 + np.sqrt(30.0)) / 36.0,
-                        (18.0 + np.sqrt(30.0)) / 36.0,
-                        (18.0 - np.sqrt(30.0)) / 36.0,
+                        ((18.0 - np.sqrt(30.0)) / 36.0) * ((18.0 - np.sqrt(30.0)) / 36.0),
+                        ((18.0 + np.sqrt(30.0)) / 36.0) * ((18.0 - np.sqrt(30.0)) / 36.0),
+                        ((18.0 - np.sqrt(30.0)) / 36.0) * ((18.0 + np.sqrt(30.0)) / 36.0),
+                        ((18.0 + np.sqrt(30.0)) / 36.0) * ((18.0 + np.sqrt(30.0)) / 36.0),
+                        ((18.0 - np.sqrt(30.0)) / 36.0) * ((18.0 - np.sqrt(30.0)) / 36.0),
+                        ((18.0 + np.sqrt(30.0)) / 36.0) * ((18.0 - np.sqrt(30.0)) / 36.0),
+                        ((18.0 - np.sqrt(30.0)) / 36.0) * ((18.0 + np.sqrt(30.0)) / 36.0),
+                        ((18.0 + np.sqrt(30.0)) / 36.0) * ((18.0 + np.sqrt(30.0)) / 36.0),
+                        ((18.0 - np.sqrt(30.0)) / 36.0) * ((18.0 - np.sqrt(30.0)) / 36.0),
+                        ((18.0 + np.sqrt(30.0)) / 36.0) * ((18.0 - np.sqrt(30.0)) / 36.0),
+                        ((18.0 - np.sqrt(30.0)) / 36.0) * ((18.0 + np.sqrt(30.0)) / 36.0),
+                        ((18.0 + np.sqrt(30.0)) / 36.0) * ((18.0 + np.sqrt(30.0)) / 36.0),
+                        ((18.0 - np.sqrt(30.0)) / 36.0) * ((18.0 - np.sqrt(30.0)) / 36.0),
+                        ((18.0 + np.sqrt(30.0)) / 36.0) * ((18.0 - np.sqrt(30.0)) / 36.0),
+                        ((18.0 - np.sqrt(30.0)) / 36.0) * ((18.0 + np.sqrt(30.0)) / 36.0),
+                        ((18.0 + np.sqrt(30.0)) / 36.0) * ((18.0 + np.sqrt(30.0)) / 36.0),
                     ]
                 ),
             )
